@@ -29,7 +29,8 @@ What is a theorem here (Props/C20*.lean):
  * the dispatch tables and literals those models copy are REGENERATED from the live source (translate_c20.py ->
    Gen/C20Tables.lean) and proved equal to the models for every argument (C20Gen.lean): the heads of
    save_performance_midi, Performance.__init__, transpose, save_score_midi (+ every later use of `parts`), save_musicxml,
-   Score.__init__, ensure_notearray, and how slice_notearray_by_time binds / writes its result; composed theorems
+   Score.__init__, ensure_notearray, how slice_notearray_by_time binds / writes its result, and the bodies of the container
+   methods (__getitem__ / __setitem__ / __iter__ / __len__ of Score and Performance delegate to ONE list); composed theorems
    (`live_exporters_agree`, `live_slice_frame`) state the property for the tables the live source contains;
  * ARRAY VIEWS THAT COPY (C20Array.lean over Model/ArrayView.lean): slice_notearray_by_time over a heap of numpy buffers —
    every existing buffer (the argument's) is left as it was, the result is a new buffer (no shared memory), holds the
@@ -85,7 +86,8 @@ RULE = ("(c) random graphs of real Note/GraceNote/Slur/Tuplet objects copied wit
         "Score and Performance objects with 0-4 parts, compared with the Lean container model and with a plain Python list; "
         "(b) generated scores/parts/performances on which every read-only entry point is called twice in a random order with a "
         "deep fingerprint (incl. object identities) before and after each call; "
-        "(e) forms: every form of the ScoreLike / PerformanceLike unions read from the live source (Score, Score built from "
+        "(e) forms (part ids P<n>, other spellings, and duplicate ids): every form of the ScoreLike / PerformanceLike unions "
+        "read from the live source (Score, Score built from "
         "groups, Part alone / taken out of a Score / of a group, PartGroup, nested groups, list, tuple, list holding a group; "
         "Performance with and without unique tracks, PerformedPart alone / taken out of a Performance / on a non-zero track / "
         "with controls without a track key / with gaps, list, tuple) x every read-only function discovered in partitura's "
@@ -102,7 +104,8 @@ LEVEL_TEXT = ("Lean 4 theorems over all inputs: container protocol incl. reverse
               "list with the original; for every ScoreLike form the exporters, Score(x) and ensure_notearray reach exactly "
               "the parts iter_parts reaches; transpose leaves every note cell of its argument as it was, for every form, "
               "and is repeatable; save_performance_midi binds every PerformanceLike form to the caller's own parts "
-              "(dispatch tables of ALL these heads regenerated from the live source and proved equal to the model); the "
+              "(dispatch tables of ALL these heads and the bodies of the container methods regenerated from the live source and "
+              "proved equal to the model); the "
               "number_of_staves memo never changes objects and no result depends on it; slice_notearray_by_time over a heap of "
               "numpy buffers writes only into a newly allocated buffer (argument untouched, no shared memory, repeatable). "
               "All tied to the code by differential runs. "
